@@ -38,6 +38,7 @@ Definition wf (s : store) : Prop :=
 Definition wf_typed (s : store) : Prop :=
   forall v ob, lookup v (objs s) = Some ob -> oty ob = OpaqueData -> ost ob = None.
 
+
 (* the kinds the property accepts for a MAC key (see notes/C04.md) *)
 Definition mac_kind (t : otype) : Prop := t = SymmetricKey \/ t = SecretData.
 
@@ -56,8 +57,9 @@ Definition gate (s : store) (o : op) : Prop :=
   | Decrypt u _ => usable s u SymmetricKey bDECRYPT
   | Sign u _ => usable s u PrivateKey bSIGN
   | SignatureVerify u _ => usable s u PublicKey bVERIFY
-  | MAC u _ _ => exists ob, lookup u (objs s) = Some ob /\ ost ob = Some Active /\ has_bit (omask ob) bMAC_GENERATE = true
-  | GetWrap _ w => usable s w SymmetricKey bWRAP_KEY
+  | MAC u _ _ => exists ob, lookup u (objs s) = Some ob /\ mac_kind (oty ob) /\ ost ob = Some Active
+                            /\ has_bit (omask ob) bMAC_GENERATE = true
+  | GetWrap _ w => usable s w SymmetricKey bWRAP_KEY     (* and the wrapped object is a key or secret data: get_wrap_gated *)
   | DeriveKey us _ =>
       us <> [] /\ forall u, In u us -> exists ob, lookup u (objs s) = Some ob /\ derivable (oty ob) = true
                                                    /\ has_bit (omask ob) bDERIVE_KEY = true
